@@ -15,7 +15,7 @@ import traceback
 from . import VERIF_ROOT, bind_repo, core, evidence, findings
 from .explore import HarnessDivergence
 
-REPLAY_DIR = os.path.join(VERIF_ROOT, "replays")
+REPLAY_DIR = os.environ.get("VERIF_REPLAY_DIR") or os.path.join(VERIF_ROOT, "replays")
 MAX_REPORTED = 8
 
 
